@@ -194,6 +194,12 @@ def corpus(d):
     out['PUT provider re-parent subtree'] = Req(
         'PUT', '/resource_providers/%s' % C, v,
         {'name': 'child', 'parent_provider_uuid': E})
+    out['PUT provider: root with a child gets a parent'] = Req(
+        'PUT', '/resource_providers/%s' % R, v,
+        {'name': 'root', 'parent_provider_uuid': E})
+    out['PUT provider: root with a child gets a parent (1.14)'] = Req(
+        'PUT', '/resource_providers/%s' % R, '1.14',
+        {'name': 'root-renamed', 'parent_provider_uuid': S})
     out['POST provider under parent'] = Req(
         'POST', '/resource_providers', v,
         {'name': 'grandchild', 'uuid': world.N, 'parent_provider_uuid': C})
